@@ -391,6 +391,28 @@ def run(prop, tier):
                     runs["both spellings, long must win"] = [0, enc_regions(list(au.split(d, **both)))]
                 except Exception as e:
                     runs["both spellings, long must win"] = [1, exc_code(e)]
+                # the same with the short spellings written FIRST in the call (the order of keywords must not matter)
+                rev = dict(list(reversed(list(both.items()))))
+                try:
+                    runs["both spellings, short written first, long must win"] = [0, enc_regions(list(au.split(d, **rev)))]
+                except Exception as e:
+                    runs["both spellings, short written first, long must win"] = [1, exc_code(e)]
+                # a long name given explicitly as None is still the long name: it wins over its alias (None is a meaningful value
+                # for use_channel = any channel, max_read = no limit, validator = the energy validator)
+                plain_kw = dict(base, analysis_window=cs["aw"], energy_threshold=cs["eth"], sampling_rate=rate, sample_width=w, channels=ch)
+                for nm, kwn in (("max_read=None beside mr", dict(plain_kw, use_channel=cs["uc"], max_read=None, mr=0.0)),
+                                ("validator=None beside val", dict(plain_kw, use_channel=cs["uc"], validator=None, val=(lambda frame: False)))):
+                    try:
+                        runs[nm] = [0, enc_regions(list(au.split(d, **kwn)))]
+                    except Exception as e:
+                        runs[nm] = [1, exc_code(e)]
+                if cs["uc"] is None and ch > 1:
+                    # use_channel=None (any channel) beside uc=<an index>: the result must be that of `any`
+                    for idx in range(ch):
+                        try:
+                            runs["use_channel=None beside uc=%d" % idx] = [0, enc_regions(list(au.split(d, **dict(plain_kw, use_channel=None, uc=idx))))]
+                        except Exception as e:
+                            runs["use_channel=None beside uc=%d" % idx] = [1, exc_code(e)]
                 # the validator alias: val alone, and validator + val with conflicting values
                 try:
                     from auditok.util import AudioEnergyValidator as _AEV
